@@ -54,7 +54,12 @@ def _host_fn(x):
 
 def make_host_parent():
     """the host's prepared context: a child of the standard context with a mutable variable and a function"""
-    p = yq.ROOT.create_child_context()
+    if H.P('bare'):
+        # a hand-assembled host chain that has no '#finalize' / '#iter' function of its own
+        import yaql
+        p = yaql.create_context(finalizer=_host_fn).create_child_context()
+    else:
+        p = yq.ROOT.create_child_context()
     p['hv'] = [1, {'k': [2]}]
     p['hs'] = {7, 8}
     p.register_function(_host_fn, name='hostFn')
@@ -164,7 +169,7 @@ def check_statement(text, eng, host):
         return 'second evaluation with equal data gave a different outcome'
     if light(ctx) != l0:
         return 'evaluation context changed (other than $)'
-    if o1[0] == 'ok':
+    if o1[0] == 'ok' and not H.P('bare'):      # (a chain without #finalize returns unconverted values by design)
         L.scribble(o1[1])
         if not L.unchanged(s0):
             return 'result aliases host data'
@@ -292,13 +297,21 @@ QUICK_FIXED = {'$ + $', '[9] + $', '$ + [9]', '$ + {c => 1}', '$ * 2', '1 in $',
                '$hv[1].k.append(1)', '$hs.add(3)', '[$hv, $hs]', 'hostFn($hv)'}
 
 
+QUICK_ALWAYS = {('ndict', '$.mergeWith({a => [7]})'), ('ndict', '$.a + [9]'), ('nlist', '$[0].insert(0, 9)')}
+
+
 def conditions(tier, seed):
     quick = tier == 'quick'
     t = 120 if quick else 300
     ns = [0, 2] if quick else [0, 1, 2]
     out = []
+    for text in ('$.select($).len()', 'let(x => $) -> $x.len()', '($ + [9]).len()', '$hv.insert(0, $).len()'):
+        out.append({'name': 'fixed-bare[%s | list]' % text, 'func': 'apply', 'timeout': t,
+                    'param': {'text': text, 'kind': 'list', 'ns': ns, 'bounded': False, 'bare': True},
+                    'bounds': '%s with $ = host list, evaluated in a child of a hand-assembled host context chain without '
+                              '#finalize; the chain must stay unchanged' % text})
     for kind, text in FIXED:
-        if quick and (kind not in QUICK_KINDS or text not in QUICK_FIXED):
+        if quick and (kind not in QUICK_KINDS or text not in QUICK_FIXED) and (kind, text) not in QUICK_ALWAYS:
             continue
         bounded = L.needs_bounds(text, kind, HOSTP)
         out.append({'name': 'fixed[%s | %s]' % (text, kind), 'func': 'apply', 'timeout': t,
